@@ -333,8 +333,9 @@ def evaluate_chunk(cx, hs, base, tag):
                              "desc": h.describe()})
         if bad:
             continue
-        # evidence
-        for m in h.meta:
+        # evidence (after a V8 self-inconsistency only the steps before it were compared)
+        compared = h.meta[:int(a["v8_self"]["step"])] if a["v8_self"] else h.meta
+        for m in compared:
             cx.count("ops", m["op"])
             for t in m["tags"]:
                 cx.count("tags", t)
@@ -506,7 +507,7 @@ def replay_known(cx, findings):
 # --------------------------------------------------------------------------------------------
 # thorough: the same histories under AddressSanitizer (only crashes / sanitizer reports matter there)
 
-def asan_stream(cx, seed, n):
+def asan_stream(cx, seed, n, budget_s=480):
     try:
         binary = build.ensure("bvh", "asan")
     except build.BuildError as e:
@@ -514,8 +515,12 @@ def asan_stream(cx, seed, n):
         return
     env = {"ASAN_OPTIONS": "detect_leaks=0:abort_on_error=1:halt_on_error=1"}
     k = 0
+    t_start = time.time()
     while k < n:
-        m = min(2000, n - k)
+        if time.time() - t_start > budget_s or time.time() - cx.chk.t0 > 1680:
+            cx.chk.assumptions.append("ASan stream: wall-clock cap reached after %d of %d planned histories" % (k, n))
+            break
+        m = min(500, n - k)
         hs = [G.generate(Rng(seed, "c14", "asan", k + i), cx.avoid) for i in range(m)]
         jobs = [job(k + i, h.src()) for i, h in enumerate(hs)]
         t0 = time.time()
@@ -556,6 +561,9 @@ def run(tier, seed):
             k += m
             if len(cx.cands) > 400:
                 break
+            if time.time() - chk.t0 > 1200:
+                chk.assumptions.append("wall-clock cap: %d of %d planned histories were run" % (k, n_hist))
+                break
         if cx.cands:
             report_candidates(cx, tier)
         replay_known(cx, findings)
@@ -567,7 +575,7 @@ def run(tier, seed):
     missing = [f for f in NEED_FORMS if not cx.form_hist.get(f)] + ["%s->%s" % t for t in NEED_TRANS if not cx.trans_hist.get("%s->%s" % t)]
     if missing:
         chk.inconc("storage forms / transitions not visited: %s" % ",".join(missing))
-    chk.assumptions = [
+    chk.assumptions += [
         "V8 (node 20, V8 11.3) implements the ECMA-262 array algorithms; one known deviation is normalised (Object.isFrozen of an array "
         "ignores a writable length) and counted under histograms.v8_normalised",
         "the array-like / Proxy twins are per-step clones of the real array's pre-state (own keys in order, descriptors, prototype, "
